@@ -101,7 +101,7 @@ class FunctionResult:
             "feasible_exits": self.feasible_exits, "secs": round(self.secs, 3),
             "source_hash": self.source_hash, "uncovered_lines": self.uncovered,
             "callee_contracts_used": sorted(self.assumed), "opaque_calls": sorted(self.opaque),
-            "raised": self.raised_classes, "canaries": self.canaries, "canary_proved": self.canary_proved,
+            "call_feas": getattr(self, "call_feas", {}), "raised": self.raised_classes, "canaries": self.canaries, "canary_proved": self.canary_proved,
             "obligations": {k: {kk: vv for kk, vv in v.items() if kk not in ("smt2",)} for k, v in self.obligations.items()},
         }
 
@@ -131,6 +131,7 @@ class Verifier:
         self.feas_stats = []
         self.refuted = set()
         self.proved_cache = set()
+        self.call_feas = {}
         self.known = {}
         self.lemmas_used = set()
         self.relativised = set()
@@ -212,6 +213,7 @@ class Verifier:
         t0 = time.time()
         self.current = con
         self.proved_cache = set()
+        self.call_feas = {}
         self.refuted = set(getattr(self, "pre_refuted", ()))
         try:
             mod = ModuleInfo.get(self.root, con.file)
@@ -254,6 +256,7 @@ class Verifier:
                 res.opaque |= eng.opaque_calls
                 for ob in eng.obligations:
                     self.merge(res, ob)
+            res.call_feas = {f"{k[0]}@{k[1]}": v for k, v in self.call_feas.items()}
             res.covered = sorted(covered)
             body_lines = {n.lineno for n in _walk_no_defs(fn) if isinstance(n, ast.stmt)}
             res.body_lines = sorted(body_lines)
@@ -316,6 +319,8 @@ class Verifier:
             if ty is None:
                 if p == "self" and con.self_type:
                     ty = con.self_type
+                elif con.options.get("default_param"):
+                    ty = con.options["default_param"]
                 elif p in ("self", "cls"):
                     ty = "opaque"
                 else:
@@ -399,6 +404,7 @@ class Verifier:
             for name in con.free:
                 env[name] = frame.parent.env[name]
         try:
+            self.check_lock_discipline(eng, con, fn, kind, val)
             self.check_frame(eng, con, fn)
             if kind == "normal":
                 if getattr(frame, "is_gen", False):
@@ -412,11 +418,10 @@ class Verifier:
                 cname = e.cls or f"<unknown:{e.any_of}>"
                 res.raised_classes[cname] = res.raised_classes.get(cname, 0) + 1
                 allowed = None
-                if e.cls is not None:
-                    for a in con.raises:
-                        if self.hierarchy.is_subclass(e.cls, a):
-                            allowed = a
-                            break
+                for a in con.raises:
+                    if self.hierarchy.is_subclass(e.cls if e.cls is not None else (e.any_of or "BaseException"), a):
+                        allowed = a
+                        break
                 if allowed is None and not con.raises_any:
                     eng.prove(f"{pfx}:raises-only", False, "raises-only", fn,
                               detail=f"{cname} raised at line {e.site}; allowed: {sorted(con.raises)}", assume_after=False, frame=frame, extra=env)
@@ -428,6 +433,42 @@ class Verifier:
 
     def check_result_type(self, eng, con, val):
         pass
+
+    def check_lock_discipline(self, eng, con, fn, kind, val):
+        """C07 (options lock_discipline): every _GitFile created by this call and not handed to
+        the caller is Released at every exit, and not committed at exceptional exits."""
+        if not con.options.get("lock_discipline"):
+            return
+        from .values import VObj, VRef, VTuple
+        escaped = set()
+        if kind == "normal":
+            todo = [val]
+            while todo:
+                v = todo.pop()
+                if isinstance(v, VRef):
+                    escaped.add(v.addr)
+                elif isinstance(v, VTuple):
+                    todo.extend(v.items)
+        # stored into an object that existed at entry
+        for addr, o in eng.heap.items():
+            if addr in eng.heap_at_entry and isinstance(o, VObj):
+                for f, x in o.fields.items():
+                    if isinstance(x, VRef):
+                        escaped.add(x.addr)
+        pfx = con.oid_prefix
+        for addr, o in sorted(eng.heap.items()):
+            if addr in eng.heap_at_entry or not isinstance(o, VObj) or o.cls != "_GitFile":
+                continue
+            if addr in escaped and kind == "normal":
+                continue
+            owns = o.fields.get("owns")
+            if owns is not None:
+                eng.prove(f"{pfx}:lock-released@{kind}", z3.Not(owns.t), "ghost-post", fn,
+                          detail=f"lock taken in this call is released on every {kind} exit", assume_after=False)
+            com = o.fields.get("committed")
+            if kind == "raised" and com is not None:
+                eng.prove(f"{pfx}:lock-aborted@raised", z3.Not(com.t), "ghost-post", fn,
+                          detail="a failing writer never commits (replaces the protected file)", assume_after=False)
 
     def check_frame(self, eng, con, fn):
         """Frame condition: everything reachable from the parameters at entry that the contract
